@@ -165,3 +165,12 @@ Proof.
   inversion C1; subst. f_equal.
   destruct r1 as [[o|v]|e], r2 as [[o'|v']|e']; try tauto; subst; auto.
 Qed.
+
+(* non-vacuity: a program whose statement-position ++ operates on a string *)
+Definition p_incdec : stmt :=           (* var q = "2"; q++; log(q); *)
+  SSeq (SVar 1%N 0%N (EConst (CStr 7%N))) (SSeq (SExpr (EIncDec false true 0%N)) (SLog (EVar 0%N))).
+
+Lemma position_example :
+  run_env_pm PUnused 10 p_incdec = ([ONum 3%Z true], ONormal (Some OUndef)) /\
+  run_env 10 p_incdec = ([ONum 3%Z true], ONormal (Some OUndef)).
+Proof. split; vm_compute; reflexivity. Qed.
